@@ -293,7 +293,7 @@ def soup_step(s, rng, maxbuf, depth=0):
         s.read(o, n)
     elif r < 0.80:
         if rng.random() < 0.8 and st: s.seek_within(o)
-        else: s.seek(o, rng.choice([-5, -1, 0, 3, 10000, -10**12, 10**12]), rng.choice(['set', 'cur', 'end', 'bad']))
+        else: s.seek(o, rng.choice([-5, -1, 0, 3, 10000, 70000, -10**12, 10**12]), rng.choice(['set', 'cur', 'end', 'bad']))
     elif r < 0.86: s.emit(f'tell {o}')
     elif r < 0.90: s.emit(f'eof {o}')
     elif r < 0.93: s.flush(o)
@@ -367,7 +367,7 @@ class C20(Spec):
     assumptions = ('one stream per file at a time (the reference stdio has no buffers); modes r w a r+ w+ (+b)',
                    'no read directly after write or write directly after read without fseek/fflush/EOF (undefined in C): such ops are skipped by both sides',
                    'scan_from only on plain decimal text (no leading zeros / 0x, at most 18 digits)',
-                   '/dev/full: write-only modes, at most 1024 buffered bytes, no seek',
+                   '/dev/full: write-only modes, at most 1024 buffered bytes, no seek', 'no write at an offset beyond 1 MiB',
                    'an object is not deleted inside its own with-block (use after free)')
     def cases(self, rng, tier, boost=1):
         quick = tier == 'quick'
@@ -376,7 +376,7 @@ class C20(Spec):
         def pack(name, seqs, per):
             # several independent histories per process would share files; keep one history per case, but join short ones
             for i, ls in enumerate(seqs): cs.append(Case(f'{name}{i}', ls))
-        n_rt = (150 if quick else 2500) * boost
+        n_rt = (150 if quick else 1200) * boost
         pack('rt', [gen_roundtrip(rng, maxbuf) for _ in range(n_rt)], 1)
         ex = gen_lifecycle_exhaustive(3 if quick else 4)
         # join the exhaustive sequences into files of 64 histories: each starts with `new 4` and must end by deleting it
@@ -387,11 +387,11 @@ class C20(Spec):
                 lines += seq + ['del 4', 'rm 2']
             joined.append(lines)
         pack('life', joined, 1)
-        pack('lifer', [gen_lifecycle_random(rng) for _ in range((100 if quick else 2000) * boost)], 1)
-        pack('closed', [gen_closed(rng) for _ in range((40 if quick else 400) * boost)], 1)
-        pack('text', [gen_text(rng) for _ in range((60 if quick else 1000) * boost)], 1)
-        pack('dev', [gen_device(rng) for _ in range((50 if quick else 600) * boost)], 1)
-        pack('soup', [gen_soup(rng, rng.randrange(20, 120 if quick else 400), maxbuf) for _ in range((150 if quick else 2000) * boost)], 1)
+        pack('lifer', [gen_lifecycle_random(rng) for _ in range((100 if quick else 900) * boost)], 1)
+        pack('closed', [gen_closed(rng) for _ in range((40 if quick else 250) * boost)], 1)
+        pack('text', [gen_text(rng) for _ in range((60 if quick else 500) * boost)], 1)
+        pack('dev', [gen_device(rng) for _ in range((50 if quick else 350) * boost)], 1)
+        pack('soup', [gen_soup(rng, rng.randrange(20, 120 if quick else 400), maxbuf) for _ in range((150 if quick else 900) * boost)], 1)
         return cs
     def model_selfcheck(self, case, m_out):
         # the driver evaluates the specification `track` on the model's own log of stdio calls, object by object
